@@ -15,6 +15,17 @@ class Trace:
     pass
 
 
+def strip_tb(e):
+    """Drop the tracebacks of an exception the harness keeps AND of everything chained to it (a StopIteration that PEP 479
+    turned into a RuntimeError hangs on __cause__): a kept traceback keeps the frames of the failed pipeline alive, which
+    is the consumer's doing, not the library's."""
+    seen = set()
+    while e is not None and id(e) not in seen:
+        seen.add(id(e))
+        e.__traceback__ = None
+        e = e.__cause__ or e.__context__
+
+
 def expected_of(case):
     """Sequential semantics of the workload: (delivered list, failing position or None, exception name or None)."""
     n = case['n']
@@ -282,7 +293,7 @@ def run_case(case, trace_lines=True):
         except BaseException as e:  # noqa
             if isinstance(e, (KeyboardInterrupt, SystemExit, GeneratorExit)):
                 raise
-            e.__traceback__ = None  # no frame cycles: nothing of this case may be left to the cyclic GC
+            strip_tb(e)  # no frame cycles: nothing of this case may be left to the cyclic GC
             if isinstance(e, AssertionError) and case['buffer'] < max(1, case['workers']) and not tr.delivered:
                 tr.construct_error = e  # the invalid buffer size was rejected at the first next(): nothing to judge
             else:
@@ -305,7 +316,7 @@ def run_case(case, trace_lines=True):
                 except detsched.Abort:
                     raise
                 except BaseException as e:  # noqa: judged by judge_termination
-                    e.__traceback__ = None
+                    strip_tb(e)
                     tr.close_exc = e
             elif stop['kind'] == 'close_other':
                 # the iterator was handed to another thread (a clean-up thread, a finaliser) which closes it there
@@ -315,7 +326,7 @@ def run_case(case, trace_lines=True):
                     except detsched.Abort:
                         raise
                     except BaseException as e:  # noqa: judged by judge_termination
-                        e.__traceback__ = None
+                        strip_tb(e)
                         tr.close_exc = e
                 lt = sched.spawn('closer', closer)
                 sched.start_thread(lt)
@@ -329,7 +340,7 @@ def run_case(case, trace_lines=True):
                 except detsched.Abort:
                     raise
                 except BaseException as e:  # noqa
-                    e.__traceback__ = None
+                    strip_tb(e)
                     if e is not marker:
                         tr.close_exc = e
                 else:
@@ -542,6 +553,10 @@ def judge_values(tr, check_len=True):
         if tr.exc is None:
             raise Violation(f'error-swallowed|{c["kind"]}',
                             f'{describe(tr)}\ndelivered {got} and ended normally; expected {ename} at {fail_pos}')
+        if ename == 'StopIteration':
+            # PEP 479: inside the library's generators it becomes a RuntimeError; what matters is that SOMETHING surfaces
+            # at that position (a StopIteration that reaches the consumer's next() is a silent end, judged above)
+            return
         if not any(tr.exc is e for e in tr.raised.get(fail_pos, [])):
             raise Violation(f'wrong-error|{c["kind"]}',
                             f'{describe(tr)}\nraised {tr.exc!r}; expected the exception object raised at position '
@@ -697,6 +712,9 @@ def st_case(draw, profile):
                 src_fail[str(p)] = e
             else:
                 fn_fail[str(p)] = e
+        if fn_fail and (kind in ('lpm', 'pm') or (kind == 'pf' and w > 1)) and draw(st.integers(0, 5)) == 0:
+            # a bare next() inside the user function: StopIteration out of a pool task
+            fn_fail[sorted(fn_fail)[-1]] = 'StopIteration'
         case['src_fail'], case['fn_fail'] = src_fail, fn_fail
         iter_fail = (kind in ('stp', 'lpm') or (kind == 'pf' and w == 1)) and draw(st.integers(0, 5)) == 0
         if kind == 'pf':
